@@ -236,4 +236,16 @@ CHECKS = {
         "note": "Cross-module construction is observed through the real CLI with a stub cargo (catalogued finding: the hook is bypassed "
                 "across modules); programs rustc rejects are counted and left to C02.",
     },
+    "C13": {
+        "level": "translation_validation",
+        "technique": "TLA+ spec Rename (consistent renaming on Core programs; TLC checks Accept/Run invariance for every position x candidate "
+                     "name); renamed programs through the real checker, emitter, rustc and execution, compared with the original's behaviour",
+        "text": "Rename.tla defines consistent renaming and TLC verifies on the model that it preserves the static verdict and the behaviour, "
+                "so the expected behaviour of a renamed program is the original's. For the six Core binding positions the TLC-renamed "
+                "program is rendered and compiled; for eight further positions (type, field, method, method parameter, enum, variant, match "
+                "binding, closure parameter) a template is instantiated. Every (position, name) goes through the real checker and emitter; "
+                "a per-name-balanced sample (thorough: all) is built and run (top-level renamings in isolation).",
+        "note": "Candidate names: the 24 Rust keywords Incan does not reserve, runtime/prelude/helper names, generated temporaries, case "
+                "variants; module file names not yet renamed. Keyword declarations and a crate-shadowing type name are catalogued defects.",
+    },
 }
